@@ -21,6 +21,11 @@ from . import core, loader, shadow
 from .core import (PathEnd, SymBool, SymBytes, SymInt, Unsupported, ctx)
 from .models import PackerModel, StructModule, SymStream
 
+import re as _re
+# class names of the engine's proxies as they appear in CPython's TypeError messages ("... got 'SymStr'", "... not SymInt")
+_PROXY_NAME = _re.compile(r"\b(SymBool|SymInt|SymFloat|SymBytes|SymStr|SymMem|MemBytes|SymBuf|SymStreamU|SymStream|Poison|AbstractSeq|"
+                          r"SymRange|SeqIter|GhostList|GhostIntList|GhostChunks|SymKeyDict|_Raw)\b")
+
 REGISTRY = {}  # property -> list of Unit
 
 
@@ -93,6 +98,13 @@ class UBase:
             obj = getattr(e, "obj", None)
             if obj is not None and (type(obj).__module__ or "").split(".")[0] in ("contracts", "specs", "pyvc"):
                 raise Unsupported("stand-in %s.%s has no attribute %r" % (type(obj).__module__, type(obj).__name__, getattr(e, "name", "?")))
+            return Outcome(exc=e)
+        except TypeError as e:
+            # a C-implemented function of the real library (a pattern compiled by the real `re` at import time, int.to_bytes, ...)
+            # was handed one of our proxies and rejected its type: a limit of the harness (undecided), not a behaviour of androguard.
+            # The concrete executions of the same unit run the real types and would show a real TypeError.
+            if _PROXY_NAME.search(str(e)):
+                raise Unsupported("library function rejected a proxy: %s" % e)
             return Outcome(exc=e)
         except Exception as e:  # the exception is an observable outcome
             return Outcome(exc=e)
